@@ -8,6 +8,7 @@ import TaskctlVerif.Model.CtxHooks
 import TaskctlVerif.Model.Layers
 import TaskctlVerif.Model.Vars
 import TaskctlVerif.Model.Capture
+import TaskctlVerif.Model.Imports
 /-!
 Line-protocol oracle: one case per line on stdin (`<family> <payload>`), one observation per line on
 stdout.  Compiled from exactly the definitions the theorems are about (core Lean only).
@@ -257,6 +258,31 @@ def envnameCase (fields : List String) : String :=
   let name := hexBytes ((fields.getD 0 "").toList)
   String.ofList ((Capture.envName name).map Char.ofNat)
 
+/-- `imports n=3 edges=0>1,1>2,2>0 broken=1:missing` (or `edges=-`, `broken=-`) -/
+def importsCase (fields : List String) : String :=
+  let n := (kv fields "n").toNat?.getD 0
+  let es : List (Nat × Nat) := (splitNonEmpty (kv fields "edges") ",").filterMap fun e =>
+    match e.splitOn ">" with
+    | [a, b] => match a.toNat?, b.toNat? with
+      | some a, some b => some (a, b)
+      | _, _ => none
+    | _ => none
+  let broken : Option (Nat × Imports.FStatus) :=
+    match (kv fields "broken").splitOn ":" with
+    | [i, k] => i.toNat?.map fun i => (i, if k = "missing" then .missing else .unparsable)
+    | _ => none
+  let fs : Imports.FS :=
+    { imports := fun f => (es.filter (·.1 == f)).map (·.2),
+      status := fun f => match broken with
+        | some (i, st) => if f = i then st else .ok
+        | none => .ok }
+  match Imports.loadRoot fs n 0 with
+  | .ok _ c =>
+    let sorted := c.mergeSort (· ≤ ·)
+    "ok:" ++ ",".intercalate (sorted.map fun f => s!"{f}=1")
+  | .err => "err"
+  | .outOfFuel => "out-of-fuel"
+
 def handle (line0 : String) : String :=
   if line0.startsWith "args " then argsCase ((line0.dropEndWhile (· == '\n')).toString) else
   let line := line0.trimAscii.toString
@@ -273,6 +299,7 @@ def handle (line0 : String) : String :=
   | "layers" :: rest => layersCase rest
   | "vars" :: rest => varsCase rest
   | "envname" :: rest => envnameCase rest
+  | "imports" :: rest => importsCase rest
   | _ => "bad-op"
 
 partial def loop (h : IO.FS.Stream) (out : IO.FS.Stream) : IO Unit := do
